@@ -101,11 +101,11 @@ func (p *Parser) parseCommonTableExpr() (*ast.CommonTableExpr, error) {
 	defer func() { p.depth-- }()
 
 	if p.depth > MaxRecursionDepth {
-		return nil, goerrors.InvalidCTEError(
-			fmt.Sprintf("maximum recursion depth exceeded (%d) - CTE too deeply nested", MaxRecursionDepth),
+		return nil, goerrors.NewError(
+			goerrors.ErrCodeRecursionDepthLimit,
+			fmt.Sprintf("invalid CTE syntax: maximum recursion depth exceeded (%d) - CTE too deeply nested", MaxRecursionDepth),
 			p.currentLocation(),
-			"",
-		)
+		).WithHint(fmt.Sprintf("Simplify nested expressions or subqueries (current limit: %d levels)", MaxRecursionDepth))
 	}
 
 	// Parse CTE name (supports double-quoted identifiers)
